@@ -13,7 +13,7 @@ PROPERTY = 'C01'
 RULE = ('Typed random STL grammar (arithmetic incl. unary minus/ln/log, six comparisons, Boolean, rise/fall, '
         'prev/next/s_prev/s_next, bounded+unbounded past and future, unless) x random traces of length 1..12 '
         '(thorough 24) with dyadic values; lanes main/short/deep/bigbound/timecol and long (few large cases: 16-48 samples, bounds up to 20, up to five variables); one trace in five uses very few distinct values (zeros, ties, plateaus). Oracle: independent quadratic '
-        'lane reevaluate: one specification object evaluated repeatedly on one data-set dictionary that the caller edits in place between the calls (a value changes, a sample is appended or dropped); '
+        'lane hugetrace: 700..3000 samples under windows of 30..130 samples with long runs of few distinct values; lane reevaluate: one specification object evaluated repeatedly on one data-set dictionary that the caller edits in place between the calls (a value changes, a sample is appended or dropped); '
         'reference R-dt; result must be n [time,value] pairs with the given time column. Non-trivial = formula has '
         '>=1 temporal/event operator and the reference result is not constant over the trace, or n == 1; '
         'distinct = distinct (formula text, trace, time column) digests.')
@@ -280,7 +280,35 @@ def cand_reevaluate(case):
             yield c
 
 
+@st.composite
+def strat_hugetrace_(draw, tier):
+    """Traces of 700..3000 samples under windows of 30..130 samples (lower bound 0, 5 or 17): sizes at which an
+    implementation may switch to another algorithm; few distinct values, so ties are everywhere."""
+    vs = ['x', 'y']
+    x = ('var', draw(st.sampled_from(vs)))
+    g = draw(st.sampled_from([x, ('pred', '>=', x, ('const', 1.0)), ('un', 'not', ('pred', '<', x, ('var', 'y'))), ('un', 'abs', x)]))
+    b = draw(st.integers(30, 130))
+    a = draw(st.sampled_from([0, 0, 5, 17]))
+    f = ('tun', draw(st.sampled_from(['eventually', 'always', 'once', 'historically'])), a, b, g)
+    k = draw(st.integers(0, 3))
+    if k == 1:
+        f = ('un', 'not', f)
+    elif k == 2:
+        f = ('bin', draw(st.sampled_from(['and', 'or'])), f, ('tun', draw(st.sampled_from(['eventually', 'always'])), a, b, ('un', 'neg', x) if g[0] != 'pred' and g[0:2] != ('un', 'not') else ('un', 'not', g)))
+    n = draw(st.sampled_from([700, 1500, 3000]))
+    vals = st.sampled_from([0.0, 1.0, -1.0, 2.0, 5.0, -3.0])
+    # long runs: a value is kept for a while
+    tr = {}
+    for v in vs:
+        xs = []
+        while len(xs) < n:
+            xs += [draw(vals)] * draw(st.sampled_from([1, 1, 2, 7, 40, 150]))
+        tr[v] = xs[:n]
+    return {'formula': f, 'vars': vs, 'trace': tr}
+
+
 LANES = [
+    Lane('hugetrace', lambda tier: strat_hugetrace_(tier), check, 100, 1000, None),
     Lane('reevaluate', lambda tier: strat_reevaluate_(tier), check_reevaluate, 1000, 15000, cand_reevaluate),
     Lane('verylong', lambda tier: strat_verylong_(tier), check, 150, 2000, std_candidates),
     Lane('floats', strat_floats, check, 1000, 15000, std_candidates),
